@@ -20,6 +20,7 @@ type DfCase struct {
 	Family   string                 `json:"family"`
 	Params   progen.DataflowParams  `json:"params"`
 	Dn       *progen.DisNestParams  `json:"disnest,omitempty"`
+	Kp       *progen.KeyParams      `json:"keys,omitempty"`
 	Schedule Schedule               `json:"schedule"`
 	Program  string                 `json:"program_mro,omitempty"`
 }
@@ -29,12 +30,18 @@ func (c DfCase) Build() *progen.Program {
 	if c.Dn != nil {
 		return progen.DisNest(*c.Dn)
 	}
+	if c.Kp != nil {
+		return progen.KeyFlow(*c.Kp)
+	}
 	return progen.Dataflow(c.Params)
 }
 
 func (c DfCase) Name() string {
 	if c.Dn != nil {
 		return c.Dn.String()
+	}
+	if c.Kp != nil {
+		return c.Kp.String()
 	}
 	return c.Params.String()
 }
@@ -78,6 +85,16 @@ func workList(prop string, thorough bool) []workItem {
 		}
 		out = append(out, workItem{DfCase{Family: "disnest", Dn: &d}, lvl})
 	}
+	// nested mapped calls (two levels, arrays and typed maps, literal and
+	// run-time sources, split and non-split leaves)
+	for _, d := range progen.NestFamily(thorough) {
+		d := d
+		lvl := 1
+		if thorough {
+			lvl = 2
+		}
+		out = append(out, workItem{DfCase{Family: "nest", Kp: &d}, lvl})
+	}
 	return out
 }
 
@@ -106,6 +123,9 @@ func oracleFor(prop string, ref *progen.RefResult, res *Result) []string {
 
 func sigFor(prop string, msg string) string {
 	// recognisable defect classes first
+	if strings.Contains(msg, "cannot be instantiated") && strings.Contains(msg, "unexpected merge expression") {
+		return prop + ":accepted-program-not-instantiable:unexpected-merge-expression"
+	}
 	if strings.Contains(msg, `"merge_value"`) || strings.Contains(msg, `"merge_over"`) {
 		return prop + ":unexpanded-merge-expression"
 	}
@@ -138,6 +158,14 @@ func evalDf(prop string, c DfCase, permSite func(string) bool) (viol []string, r
 	}
 	res = Run(p, c.Schedule, Options{PermSite: permSite})
 	if strings.HasPrefix(res.Err, "invoke:") {
+		if res.CompiledOK && prop == "C01" {
+			lines := strings.SplitN(res.Err, "\n", 3)
+			msg := strings.TrimSpace(lines[0])
+			if len(lines) > 1 {
+				msg += " " + strings.TrimSpace(lines[1])
+			}
+			return []string{"the compiler accepts the program but it cannot be instantiated: " + strings.TrimPrefix(msg, "invoke: ")}, res, ref, ""
+		}
 		return nil, res, ref, "rejected: " + res.Err
 	}
 	viol = oracleFor(prop, ref, res)
@@ -154,7 +182,12 @@ func evalDf(prop string, c DfCase, permSite func(string) bool) (viol []string, r
 // DataflowCheck is the main of the C01/C02/C03 checks.
 func DataflowCheck(prop string) {
 	r := ev.New(prop, "exploration")
-	r.SetBudget(100*time.Second, 25*time.Minute)
+	if prop == "C02" {
+		// the ordering check explores more schedules per program
+		r.SetBudget(170*time.Second, 25*time.Minute)
+	} else {
+		r.SetBudget(100*time.Second, 25*time.Minute)
+	}
 	core.VerifQuiet()
 	if r.ReplayPath != "" {
 		var c DfCase
@@ -189,7 +222,8 @@ func DataflowCheck(prop string) {
 			"(each job held until quiescence / lagged one iteration / started in one iteration and finished in the next; each StepNodes frontier-order "+
 			"occurrence rotated and reversed; programs with the most deviations get the held-job schedules only)%s and compared with the reference interpreter; "+
 			"(b) the nested-disabling family: 0-%d nested sub-pipelines each disabled by one of four controls (two outputs of one stage, another stage, a literal input) "+
-			"with two sibling stage calls carrying their own controls, all 16 valuations of the controls, default schedule plus each job held. "+
+			"with two sibling stage calls carrying their own controls, all 16 valuations of the controls, default schedule plus each job held; "+
+			"(c) two-level nests of mapped calls: outer and inner collection each an array or a typed map, literal or produced at run time, non-split and split leaf, default schedule plus each job held. "+
 			"distinct = distinct (program, schedule); non-trivial = the program executes at least one job",
 			maxDev, map[bool]string{true: " plus every ordered pair of held jobs and every map-iteration site of package core", false: ""}[r.Thorough()],
 			map[bool]int{true: 4, false: 3}[r.Thorough()])
